@@ -126,6 +126,10 @@ Definition hvis (m : mem) (k : hcore) : list Z :=
   load_list m (k_dictStart k) (Z.to_nat (k_xlen k)) ++ load_list m (k_prefixStart k) (Z.to_nat (k_plen k)).
 Definition is_suffix (v H : list Z) : Prop := exists p, H = p ++ v.
 Definition hhist_inv (m : mem) (k : hcore) (H : list Z) : Prop := is_suffix (hvis m k) H.
+(* with a dictionary context searched in place: its prefix comes first *)
+Definition dvis (m : mem) (dc : option hcore) : list Z :=
+  match dc with Some d => load_list m (k_prefixStart d) (Z.to_nat (k_plen d)) | None => [] end.
+Definition hhist_invd (m : mem) (k : hcore) (dc : option hcore) (H : list Z) : Prop := is_suffix (dvis m dc ++ hvis m k) H.
 
 Lemma is_suffix_lastn v H : is_suffix v H -> lastn (length v) H = v.
 Proof. intros (p & ->). apply lastn_app_r. Qed.
@@ -153,30 +157,55 @@ Proof.
     intros i Hi. unfold k_vrd. replace (k_dictLimit k + i >=? k_dictLimit k) with true by lia. f_equal. lia.
 Qed.
 
+Lemma seg_hvisd m k dc :
+  0 <= k_lo k dc -> 0 <= k_dlen dc -> 0 <= k_lowLimit k <= k_dictLimit k -> k_prefixStart k <= k_end k ->
+  seg (kd_vrd m k dc) (k_lo k dc) (k_endIdx k) = dvis m dc ++ hvis m k.
+Proof.
+  intros Hlo Hdl L P.
+  rewrite <- (seg_app (kd_vrd m k dc) (k_lo k dc) (k_lowLimit k)) by (unfold k_lo, k_endIdx; lia). f_equal.
+  - unfold k_lo, k_dlen, dvis, k_plen in *. destruct dc as [d|].
+    + rewrite (seg_as_load _ m _ _ (k_prefixStart d)); [f_equal; lia | lia |].
+      intros i Hi. unfold kd_vrd. replace (k_lowLimit k - (k_end d - k_prefixStart d) + i >=? k_lowLimit k) with false by lia. f_equal. lia.
+    + replace (k_lowLimit k - 0) with (k_lowLimit k) by lia. unfold seg. rewrite Z.sub_diag. reflexivity.
+  - rewrite <- (seg_hvis m k L P). unfold seg. remember (Z.to_nat (k_endIdx k - k_lowLimit k)) as cnt eqn:Ec. clear Ec.
+    assert (G : forall c0 a, k_lowLimit k <= a -> bytes (kd_vrd m k dc) c0 a = bytes (k_vrd m k) c0 a).
+    { induction c0 as [|c0 IH]; intros a Ha; cbn [bytes]; [reflexivity|]. rewrite kd_vrd_hi by lia. f_equal. apply IH. lia. }
+    apply G. lia.
+Qed.
+
 (* ---------------------------------------------------------------- one successful call, decoder side *)
-Theorem hs_call_decodes m ke src n cap lim ret consumed out hw c' H :
-  k_ready ke src -> call_post m ke src n cap lim ret consumed out hw c' -> hhist_inv m ke H -> 0 < ret ->
+Lemma dc_ready_lo ke dc src : k_ready ke src -> dc_ready dc -> 0 <= k_lo ke dc /\ 0 <= k_dlen dc.
+Proof.
+  intros ((L & _) & _ & Ha & _) Hdc. unfold k_lo, k_dlen. destruct dc as [d|]; [|lia].
+  destruct Hdc as ((Dk & _ & _ & _ & Dsr) & Dm). destruct (Dsr Dm) as (_ & _ & D3 & _). destruct Dk as (_ & Dp & _). unfold K64 in *. lia.
+Qed.
+
+Theorem hs_call_decodes m ke dc src n cap lim ret consumed out hw c' H :
+  k_ready ke src -> dc_ready dc -> call_post m ke dc src n cap lim ret consumed out hw c' -> hhist_invd m ke dc H -> 0 < ret ->
   (forall K, 65535 <= Z.of_nat K -> spec_decode (lastn K H) out = Some (load_list m src (Z.to_nat consumed))) /\
   (lim <> FillOutput ->
    forall K, 65535 <= Z.of_nat K -> strict_valid (lastn K H) out = Some (load_list m src (Z.to_nat consumed))) /\
-  hhist_inv m (hs_core c') (H ++ load_list m src (Z.to_nat consumed)).
+  hhist_invd m (hs_core c') (hs_dctx c') (H ++ load_list m src (Z.to_nat consumed)).
 Proof.
-  intros ((L & P & _) & _ & _ & _ & Hend) (_ & _ & _ & _ & _ & _ & Q) HI Hr.
-  destruct (Q Hr) as (_ & _ & _ & Hc & Hfull & Dsp & Dst & After).
-  rewrite seg_hvis in Dsp, Dst by lia.
+  intros R Hdc Qall HI Hr. destruct (dc_ready_lo ke dc src R Hdc) as (Hlo & Hdl).
+  destruct R as ((L & P & _) & _ & _ & _ & Hend). destruct Qall as (_ & _ & _ & _ & _ & _ & Q).
+  destruct (Q Hr) as (_ & _ & _ & Hc & Hfull & Dsp & Dst & After & Adc).
+  rewrite seg_hvisd in Dsp, Dst by lia.
   pose proof (is_suffix_lastn _ _ HI) as EL.
   split; [|split].
-  - intros K HK. apply (window_spec H (length (hvis m ke)) K); [rewrite EL; exact Dsp | exact HK].
-  - intros Hl K HK. apply (window_strict H (length (hvis m ke)) K); [rewrite EL; exact (Dst Hl) | exact HK].
-  - unfold hhist_inv. destruct After as [(_ & _ & A3 & A4 & A5) | (A1 & A2 & A3 & A4 & A5 & A6)].
-    + unfold hvis, k_xlen, k_plen. rewrite A3, A4, A5.
+  - intros K HK. apply (window_spec H (length (dvis m dc ++ hvis m ke)) K); [rewrite EL; exact Dsp | exact HK].
+  - intros Hl K HK. apply (window_strict H (length (dvis m dc ++ hvis m ke)) K); [rewrite EL; exact (Dst Hl) | exact HK].
+  - unfold hhist_invd. destruct After as [(_ & A2 & A3 & A4 & A5) | (A1 & A2 & A3 & A4 & A5 & A6)].
+    + replace (consumed <? n) with true in Adc by lia. rewrite Adc.
+      unfold hvis, k_xlen, k_plen. rewrite A3, A4, A5.
       replace (Z.to_nat (k_dictLimit (hs_core c') - k_dictLimit (hs_core c'))) with 0%nat by lia.
-      replace (Z.to_nat (src + consumed - (src + consumed))) with 0%nat by lia. cbn [load_list app]. apply is_suffix_nil.
-    + subst consumed. unfold hvis, k_xlen, k_plen in *. rewrite A2, A3, A4, A5, A6.
+      replace (Z.to_nat (src + consumed - (src + consumed))) with 0%nat by lia. cbn [dvis load_list app]. apply is_suffix_nil.
+    + subst consumed. rewrite Z.ltb_irrefl in Adc. rewrite Adc.
+      unfold hhist_invd in HI. unfold hvis, k_xlen, k_plen in *. rewrite A2, A3, A4, A5, A6.
       replace (Z.to_nat (src + n - k_prefixStart ke)) with (Z.to_nat (k_end ke - k_prefixStart ke) + Z.to_nat n)%nat by lia.
-      rewrite load_list_app, app_assoc.
+      rewrite load_list_app, !app_assoc.
       replace (k_prefixStart ke + Z.of_nat (Z.to_nat (k_end ke - k_prefixStart ke))) with src by lia.
-      apply is_suffix_snoc. exact HI.
+      apply is_suffix_snoc. rewrite <- app_assoc. exact HI.
 Qed.
 
 (* ================================================================ the prelude only shrinks the designated bytes to a suffix *)
@@ -213,11 +242,11 @@ Proof.
   - intros Heq. injection Heq as <-. exists []. reflexivity.
 Qed.
 
-Lemma pre3_hist m c src : hs_ok c -> K64 <= k_dictLimit (hs_core c) -> 0 <= src ->
+Lemma pre3_hist m c src : hs_ok c -> K64 <= k_lowLimit (hs_core c) -> 0 <= src ->
   is_suffix (hvis m (hs_core (pre3 c src))) (hvis m (hs_core c)).
 Proof.
   intros (K & _) Ha Hs. unfold pre3. destruct (negb (src =? k_end (hs_core c))); [|exists []; reflexivity].
-  cbn [hs_core]. pose proof (k_setExternalDict_ok (hs_core c) src K Ha Hs) as S0. cbv zeta in S0.
+  cbn [hs_core]. pose proof (k_setExternalDict_ok (hs_core c) src K ltac:(destruct K as (L & _); lia) Hs) as S0. cbv zeta in S0.
   destruct S0 as (_ & _ & _ & S4 & S5 & S6 & S7 & S8 & _).
   unfold hvis at 1. unfold k_xlen, k_plen. rewrite S4, S5, S6, S7, S8.
   replace (Z.to_nat (src - src)) with 0%nat by lia. cbn [load_list]. rewrite app_nil_r.
@@ -290,41 +319,50 @@ Qed.
 (* ---------------------------------------------------------------- the context the parser runs on *)
 (* no dictionary context, or one that is detached (position >= 64 KB): the designated bytes are a suffix of the
    stream's own; dictionary context copied in: they are the dictionary stream's prefix *)
-Lemma hs_effective_hist m m2 c src n ke H :
-  pre_inv c -> 0 < src -> 0 <= n -> hs_effective m c src n = Some ke ->
+Lemma hs_effective_hist m m2 c src n ke dc H :
+  pre_inv c -> 0 < src -> 0 <= n -> hs_effective m c src n = Some (ke, dc) ->
   (k_prefixStart (hs_core c) = 0 \/ hhist_inv m2 (hs_core c) H) ->
   (match hs_dctx c with Some d => hhist_inv m2 d H | None => True end) ->
-  hhist_inv m2 ke H /\ (hs_dctx c = None -> clear_of ke src n).
+  (dc <> None -> k_prefixStart (hs_core c) = 0) ->
+  hhist_invd m2 ke dc H /\ (hs_dctx c = None -> dc = None /\ clear_of ke src n).
 Proof.
   intros P Hs Hn. unfold hs_effective.
   destruct (hs_prelude m c src n) as [c1|] eqn:E; [|discriminate].
   destruct (hs_prelude_hist m m2 c src n c1 P Hs Hn E) as (Sp & S1 & C1).
   destruct (hs_prelude_ok m c src n c1 P Hs Hn E) as (P1 & R1 & D1).
-  unfold hs_pick. cbv zeta. intros Hp HI HD.
-  assert (Own : hhist_inv m2 (hs_core c1) H).
-  { destruct HI as [Hz|HI]; [|eapply is_suffix_trans; [exact S1 | exact HI]].
+  unfold hs_pick. cbv zeta. intros Hp HI HD Hfresh.
+  assert (Ev0 : k_prefixStart (hs_core c) = 0 -> hvis m2 (hs_core c1) = []).
+  { intros Hz.
     assert (Ev : hvis m2 (hs_core (pre1 c src)) = []).
     { unfold pre1. rewrite Hz. cbn [Z.eqb hs_core].
       pose proof (k_init_internal_ok (hs_core c) src (proj1 (proj1 P)) ltac:(lia)) as I0. cbv zeta in I0.
       destruct I0 as (_ & _ & _ & _ & I5 & I6 & I7 & _). apply hvis_nil; [unfold k_xlen; lia | unfold k_plen; lia]. }
-    rewrite Ev in Sp. destruct Sp as (q & Eq). symmetry in Eq. apply app_eq_nil in Eq. destruct Eq as (_ & Eq).
-    unfold hhist_inv. rewrite Eq. apply is_suffix_nil. }
+    rewrite Ev in Sp. destruct Sp as (q & Eq). symmetry in Eq. apply app_eq_nil in Eq. apply Eq. }
+  assert (Own : hhist_inv m2 (hs_core c1) H).
+  { destruct HI as [Hz|HI]; [|eapply is_suffix_trans; [exact S1 | exact HI]].
+    unfold hhist_inv. rewrite (Ev0 Hz). apply is_suffix_nil. }
+  assert (OwnD : forall k, hhist_inv m2 k H -> hhist_invd m2 k None H) by (intros k Hk; exact Hk).
   destruct (hs_dctx c1) as [d|] eqn:Ed.
   - assert (Edc : hs_dctx c = Some d) by (destruct D1 as [D1|D1]; congruence).
     rewrite Edc in HD.
-    destruct (_ >=? K64); [injection Hp as <-; split; [exact Own | intros; congruence]|].
-    destruct (_ && _ && _); [|discriminate]. injection Hp as <-.
-    split; [|intros; congruence].
-    destruct P1 as ((_ & Dd) & _). rewrite Ed in Dd. destruct Dd as (Dk & _ & Da & _).
-    pose proof (k_setExternalDict_ok d src Dk Da ltac:(lia)) as S0. cbv zeta in S0.
-    destruct S0 as (_ & _ & _ & S4 & S5 & S6 & S7 & S8 & _).
-    unfold k_setExternalDict in S4. cbn [k_dictLimit] in S4.
-    unfold hhist_inv. unfold hvis at 1. unfold k_xlen, k_plen. cbn [k_dictLimit k_lowLimit k_dictStart k_prefixStart k_end].
-    rewrite S4. replace (Z.to_nat (src - src)) with 0%nat by lia. cbn [load_list]. rewrite app_nil_r.
-    eapply is_suffix_trans; [|exact HD]. unfold hvis, k_plen, k_endIdx.
-    replace (k_dictLimit d + (k_end d - k_prefixStart d) - k_dictLimit d) with (k_end d - k_prefixStart d) by lia.
-    apply is_suffix_app_r.
-  - injection Hp as <-. split; [exact Own | intros _; exact C1].
+    destruct (_ >=? K64); [injection Hp as <- <-; split; [exact (OwnD _ Own) | intros; congruence]|].
+    destruct (_ && _ && _).
+    + injection Hp as <- <-.
+      split; [|intros; congruence]. apply OwnD.
+      destruct P1 as ((_ & Dd) & _). rewrite Ed in Dd. destruct Dd as (Dk & _ & Da & _).
+      pose proof (k_setExternalDict_ok d src Dk Da ltac:(lia)) as S0. cbv zeta in S0.
+      destruct S0 as (_ & _ & _ & S4 & S5 & S6 & S7 & S8 & _).
+      unfold k_setExternalDict in S4. cbn [k_dictLimit] in S4.
+      unfold hhist_inv. unfold hvis at 1. unfold k_xlen, k_plen. cbn [k_dictLimit k_lowLimit k_dictStart k_prefixStart k_end].
+      rewrite S4. replace (Z.to_nat (src - src)) with 0%nat by lia. cbn [load_list]. rewrite app_nil_r.
+      eapply is_suffix_trans; [|exact HD]. unfold hvis, k_plen, k_endIdx.
+      replace (k_dictLimit d + (k_end d - k_prefixStart d) - k_dictLimit d) with (k_end d - k_prefixStart d) by lia.
+      apply is_suffix_app_r.
+    + destruct (is_mid (k_level d)); [|discriminate]. injection Hp as <- <-.
+      split; [|intros; congruence].
+      unfold hhist_invd. rewrite (Ev0 (Hfresh ltac:(discriminate))), app_nil_r. cbn [dvis].
+      eapply is_suffix_trans; [|exact HD]. unfold hvis. apply is_suffix_app_r.
+  - injection Hp as <- <-. split; [exact (OwnD _ Own) | intros _; split; [reflexivity | exact C1]].
 Qed.
 
 (* the caller writes the next block [src, src + |bs|): whatever its placement, the bytes the call will use as
@@ -337,17 +375,28 @@ Proof.
   - destruct (Z.eq_dec (k_plen k) 0) as [->|Hnz]; [reflexivity|]. apply load_store_other. lia.
 Qed.
 
-Theorem hs_write_block_hist m c src bs ke H :
+Lemma hs_effective_nodict m c src n ke dc :
+  pre_inv c -> 0 < src -> 0 <= n -> hs_dctx c = None -> hs_effective m c src n = Some (ke, dc) -> dc = None.
+Proof.
+  intros P Hs Hn Hd. unfold hs_effective. destruct (hs_prelude m c src n) as [c1|] eqn:E; [|discriminate].
+  destruct (hs_prelude_ok m c src n c1 P Hs Hn E) as (_ & _ & D1).
+  assert (E1 : hs_dctx c1 = None) by (destruct D1 as [D1|D1]; congruence).
+  unfold hs_pick. rewrite E1. intros Hp. injection Hp as _ <-. reflexivity.
+Qed.
+
+Theorem hs_write_block_hist m c src bs ke dc H :
   pre_inv c -> hs_dctx c = None -> 0 < src ->
-  hs_effective (store_list m src bs) c src (Z.of_nat (length bs)) = Some ke ->
+  hs_effective (store_list m src bs) c src (Z.of_nat (length bs)) = Some (ke, dc) ->
   hhist_inv m (hs_core c) H ->
-  hhist_inv (store_list m src bs) ke H.
+  dc = None /\ hhist_invd (store_list m src bs) ke dc H.
 Proof.
   intros P Hd Hs He HI.
   assert (HD : match hs_dctx c with Some d => hhist_inv m d H | None => True end) by (rewrite Hd; exact I).
-  destruct (hs_effective_hist (store_list m src bs) m c src (Z.of_nat (length bs)) ke H P Hs ltac:(lia) He (or_intror HI) HD) as (A & B).
-  pose proof (hs_effective_ready (store_list m src bs) c src (Z.of_nat (length bs)) ke (proj1 P) (proj1 (proj2 P)) (proj2 (proj2 P)) Hs ltac:(lia) He) as ((L & Pp & _) & _).
-  unfold hhist_inv. rewrite hvis_write; [exact A | exact (B Hd) | unfold k_xlen; lia | unfold k_plen; lia].
+  pose proof (hs_effective_nodict (store_list m src bs) c src (Z.of_nat (length bs)) ke dc P Hs ltac:(lia) Hd He) as ->.
+  destruct (hs_effective_hist (store_list m src bs) m c src (Z.of_nat (length bs)) ke None H P Hs ltac:(lia) He (or_intror HI) HD
+              ltac:(intros X; exfalso; apply X; reflexivity)) as (A & B).
+  pose proof (hs_effective_ready (store_list m src bs) c src (Z.of_nat (length bs)) ke None (proj1 P) (proj1 (proj2 P)) (proj2 (proj2 P)) Hs ltac:(lia) He) as (((L & Pp & _) & _) & _).
+  split; [reflexivity|]. unfold hhist_invd. cbn [dvis app]. rewrite hvis_write; [exact A | exact (proj2 (B Hd)) | unfold k_xlen; lia | unfold k_plen; lia].
 Qed.
 
 (* LZ4_saveDictHC: the saved bytes are the tail of the prefix, hence of H *)
@@ -359,7 +408,7 @@ Proof.
   destruct S as (_ & K' & _ & _ & _ & Sr & S0 & S1).
   destruct (Z.eq_dec (k_prefixStart (hs_core c)) 0) as [Hz|Hnz].
   - destruct (S0 Hz) as (-> & -> & _). exact HI.
-  - destruct (S1 Hnz) as (T1 & T2 & T3 & T4 & T5 & T6).
+  - destruct (S1 Hnz) as (T1 & T2 & T3 & T4 & T5 & T6 & _).
     remember (snd (hs_saveDict m c a n)) as r eqn:Er.
     remember (hs_core (snd (fst (hs_saveDict m c a n)))) as k' eqn:Ek'.
     rewrite T6. unfold hhist_inv. unfold hvis at 1. unfold k_xlen, k_plen. rewrite T2, T3, T4.
@@ -375,6 +424,48 @@ Proof.
     + unfold blit. rewrite <- (load_list_length m (k_end (hs_core c) - r) (Z.to_nat r)) at 2. rewrite load_store_same.
       eapply is_suffix_trans; [exact Hsuf | exact HI].
     + replace (Z.to_nat r) with 0%nat by lia. cbn [load_list]. apply is_suffix_nil.
+Qed.
+
+(* the same with a dictionary context attached to a stream that has no external segment (the documented use: attached to
+   a stream without history; LZ4HC_setExternalDict detaches it): saving fewer bytes than the prefix holds detaches the
+   dictionary (fix F18), saving the whole prefix keeps it, and either way the bytes designated afterwards are a tail of H.
+   The save buffer must not overlap the dictionary's bytes. *)
+Lemma hs_saveDict_histd m c a n H :
+  hmem_ok m -> hs_ok c -> 0 < a -> (hs_dctx c = None \/ k_xlen (hs_core c) = 0) ->
+  (forall d, hs_dctx c = Some d -> a + K64 <= k_prefixStart d \/ k_end d <= a) ->
+  hhist_invd m (hs_core c) (hs_dctx c) H ->
+  hhist_invd (fst (fst (hs_saveDict m c a n))) (hs_core (snd (fst (hs_saveDict m c a n)))) (hs_dctx (snd (fst (hs_saveDict m c a n)))) H.
+Proof.
+  intros Hm K Ha Hx Hdis HI. pose proof (hs_saveDict_ok m c a n Hm K Ha) as S. cbv zeta in S.
+  destruct S as (_ & K' & _ & _ & _ & Sr & S0 & S1).
+  destruct (Z.eq_dec (k_prefixStart (hs_core c)) 0) as [Hz|Hnz].
+  - destruct (S0 Hz) as (-> & -> & _). exact HI.
+  - destruct (S1 Hnz) as (T1 & T2 & T3 & T4 & T5 & T6 & T7).
+    remember (snd (hs_saveDict m c a n)) as r eqn:Er.
+    remember (hs_core (snd (fst (hs_saveDict m c a n)))) as k' eqn:Ek'.
+    remember (fst (fst (hs_saveDict m c a n))) as m' eqn:Em'.
+    assert (Own : hhist_inv m (hs_core c) H).
+    { unfold hhist_invd in HI. eapply is_suffix_trans; [|exact HI]. apply is_suffix_app_r. }
+    pose proof (hs_saveDict_hist m c a n H Hm K Ha Own) as Own'. rewrite <- Em', <- Ek' in Own'.
+    rewrite T7. destruct (r <? k_end (hs_core c) - k_prefixStart (hs_core c)) eqn:Et; [exact Own'|].
+    destruct (hs_dctx c) as [d|] eqn:Ed; [|exact Own'].
+    destruct Hx as [Hx|Hx]; [discriminate|].
+    destruct K as ((L & P & _) & Dk). rewrite Ed in Dk. destruct Dk as ((_ & Dp & _) & _).
+    assert (Er2 : r = k_end (hs_core c) - k_prefixStart (hs_core c)) by lia.
+    unfold hhist_invd in *. cbn [dvis] in *.
+    assert (Hv : hvis m' k' = hvis m (hs_core c)).
+    { unfold hvis, k_xlen, k_plen in *. rewrite T2, T3, T4, Hx.
+      replace (Z.to_nat (k_dictLimit k' - k_dictLimit k')) with 0%nat by lia. cbn [load_list app].
+      replace (a + r - a) with r by lia. rewrite T6. destruct (r >? 0) eqn:Er0.
+      - unfold blit. rewrite <- (load_list_length m (k_end (hs_core c) - r) (Z.to_nat r)) at 2. rewrite load_store_same.
+        rewrite <- Er2. cbn [Z.to_nat load_list app]. f_equal; lia.
+      - replace (Z.to_nat r) with 0%nat by lia. rewrite <- Er2. replace (Z.to_nat r) with 0%nat by lia. reflexivity. }
+    assert (Hd : load_list m' (k_prefixStart d) (Z.to_nat (k_plen d)) = load_list m (k_prefixStart d) (Z.to_nat (k_plen d))).
+    { rewrite T6. destruct (r >? 0) eqn:Er0; [|reflexivity]. unfold blit.
+      destruct (Z.eq_dec (k_plen d) 0) as [->|Hnzd]; [reflexivity|].
+      apply load_store_other. rewrite load_list_length. unfold k_plen in *. unfold K64 in *.
+      destruct (Hdis d eq_refl) as [Hl|Hr]; lia. }
+    rewrite Hv, Hd. exact HI.
 Qed.
 
 (* LZ4_loadDictHC of any size: the context designates the last min(n, 64 KB) bytes of the dictionary *)
@@ -414,7 +505,7 @@ Fixpoint hstream_pre (st : mem * hsctx) (H : list Z) (ops : list hop) : Prop :=
     hop_pre st o /\
     match o with
     | HContinue src n _ | HContinueDestSize src n _ =>
-      forall ke, hs_effective (fst st) (snd st) src n = Some ke -> hhist_inv (fst st) ke H
+      forall ke dc, hs_effective (fst st) (snd st) src n = Some (ke, dc) -> hhist_invd (fst st) ke dc H
     | _ => True
     end /\
     match hstep st o with
@@ -478,7 +569,7 @@ Lemma hs_continue_generic_pos m c src n cap lim ret consumed out hw c' :
   n <= LZ4_MAX_INPUT_SIZE.
 Proof.
   intros Hn. rewrite hs_continue_generic_eq. destruct (is_mid _); [|discriminate].
-  destruct (hs_effective m c src n) as [ke|]; [|discriminate]. apply k_generic_mid_pos. exact Hn.
+  destruct (hs_effective m c src n) as [[ke dc]|]; [|discriminate]. apply k_generic_mid_pos. exact Hn.
 Qed.
 
 Lemma hs_fastReset_pos m c src n cap level ret consumed out hw c' :
@@ -486,25 +577,25 @@ Lemma hs_fastReset_pos m c src n cap level ret consumed out hw c' :
   n <= LZ4_MAX_INPUT_SIZE.
 Proof.
   intros Hn. unfold hs_fastReset. cbv zeta. destruct (is_mid _); [|discriminate].
-  rewrite hs_generic_eq. destruct (hs_pick _ src n) as [ke|]; [|discriminate]. apply k_generic_mid_pos. exact Hn.
+  rewrite hs_generic_eq. destruct (hs_pick _ src n) as [[ke dc]|]; [|discriminate]. apply k_generic_mid_pos. exact Hn.
 Qed.
 
 (* the claims for one successful streaming call, from [call_post] *)
-Lemma continue_claims m ke src n cap ret consumed out hw c' H :
-  0 <= n < 2147483648 -> k_ready ke src ->
-  call_post m ke src n cap (if cap <? compressBound n then LimitedOutput else NotLimited) ret consumed out hw c' ->
-  hhist_inv m ke H -> (0 < ret -> n <= LZ4_MAX_INPUT_SIZE) ->
+Lemma continue_claims m ke dc src n cap ret consumed out hw c' H :
+  0 <= n < 2147483648 -> k_ready ke src -> dc_ready dc ->
+  call_post m ke dc src n cap (if cap <? compressBound n then LimitedOutput else NotLimited) ret consumed out hw c' ->
+  hhist_invd m ke dc H -> (0 < ret -> n <= LZ4_MAX_INPUT_SIZE) ->
   (compressBound n <= cap -> n <= LZ4_MAX_INPUT_SIZE -> 0 < ret) /\
   (0 < ret -> ret = Z.of_nat (length out) /\ ret <= Z.max cap (compressBound n) /\ consumed = n /\
               win_strict H out (load_list m src (Z.to_nat n))).
 Proof.
-  intros Hn R Q HI Hpos. pose proof Q as (_ & _ & _ & Q4 & Q5 & _ & Q7).
+  intros Hn R Rd Q HI Hpos. pose proof Q as (_ & _ & _ & Q4 & Q5 & _ & Q7).
   split.
   - intros Hb Hmax. replace (cap <? compressBound n) with false in Q5 by lia. apply Q5; [reflexivity | exact Hmax].
   - intros Hr. destruct (Q7 Hr) as (_ & E1 & E2 & _ & E4 & _).
     assert (Hl : (if cap <? compressBound n then LimitedOutput else NotLimited) <> FillOutput) by (destruct (cap <? compressBound n); discriminate).
     specialize (E4 Hl). subst consumed.
-    destruct (hs_call_decodes m ke src n cap _ ret n out hw c' H R Q HI Hr) as (_ & D2 & _).
+    destruct (hs_call_decodes m ke dc src n cap _ ret n out hw c' H R Rd Q HI Hr) as (_ & D2 & _).
     split; [exact E1|]. split; [pose proof (hwlim_cap n cap ltac:(specialize (Hpos Hr); lia)); lia|].
     split; [reflexivity|]. intros K HK. apply (D2 Hl K HK).
 Qed.
@@ -520,15 +611,15 @@ Proof.
   - (* LZ4_compress_HC_continue *)
     apply of_res_inv in E. destruct E as (ret' & consumed' & out' & hw & c' & E0 & _ & Ex). injection Ex as -> -> ->.
     destruct P1 as (Pd & Ps & Pn & Pc). unfold hs_continue in E0.
-    destruct (hs_continue_generic_sound m c src n cap _ ret' consumed' out' hw c' Hm K Pd Ps Pn Pc E0) as (ke & Ee & R & _ & Q).
-    apply (continue_claims m ke src n cap ret' consumed' out' hw c' H Pn R Q (P2 ke Ee)).
+    destruct (hs_continue_generic_sound m c src n cap _ ret' consumed' out' hw c' Hm K Pd Ps Pn Pc E0) as (ke & dc & Ee & R & Rd & _ & Q).
+    apply (continue_claims m ke dc src n cap ret' consumed' out' hw c' H Pn R Rd Q (P2 ke dc Ee)).
     apply (hs_continue_generic_pos m c src n cap _ ret' consumed' out' hw c' Pn E0).
   - (* LZ4_compress_HC_continue_destSize *)
     apply of_res_inv in E. destruct E as (ret' & consumed' & out' & hw & c' & E0 & _ & Ex). injection Ex as -> -> ->.
     destruct P1 as (Pd & Ps & Pn & Pc). unfold hs_continue_destSize in E0.
-    destruct (hs_continue_generic_sound m c src n target FillOutput ret' consumed' out' hw c' Hm K Pd Ps Pn Pc E0) as (ke & Ee & R & _ & Q).
+    destruct (hs_continue_generic_sound m c src n target FillOutput ret' consumed' out' hw c' Hm K Pd Ps Pn Pc E0) as (ke & dc & Ee & R & Rd & _ & Q).
     intros Hr. pose proof Q as (_ & _ & _ & Q4 & _ & _ & Q7). destruct (Q7 Hr) as (_ & E1 & E2 & E3 & _).
-    destruct (hs_call_decodes m ke src n target FillOutput ret' consumed' out' hw c' H R Q (P2 ke Ee) Hr) as (D1 & _ & _).
+    destruct (hs_call_decodes m ke dc src n target FillOutput ret' consumed' out' hw c' H R Rd Q (P2 ke dc Ee) Hr) as (D1 & _ & _).
     split; [exact E1|]. split; [unfold hwlim in Q4; lia|]. split; [exact E3|]. intros Kk HK. apply (D1 Kk HK).
   - (* LZ4_compress_HC_extStateHC_fastReset *)
     apply of_res_inv in E. destruct E as (ret' & consumed' & out' & hw & c' & E0 & _ & Ex). injection Ex as -> -> ->.
@@ -538,7 +629,7 @@ Proof.
     assert (HI : hhist_inv m (k_init_internal (hs_core (hs_resetFast c level)) src) []).
     { unfold hhist_inv. rewrite hvis_nil; [apply is_suffix_nil | unfold k_xlen; lia|].
       unfold k_plen. destruct R as ((_ & Pp & _) & _ & _ & _ & Re). unfold k_endIdx in Q2. lia. }
-    pose proof (continue_claims m _ src n cap ret' consumed' out' hw c' [] Pn R Q HI
+    pose proof (continue_claims m _ None src n cap ret' consumed' out' hw c' [] Pn R I Q HI
                   (hs_fastReset_pos m c src n cap level ret' consumed' out' hw c' Pn E0)) as (C1 & C2).
     split; [exact C1|]. intros Hr. destruct (C2 Hr) as (A1 & A2 & A3 & A4).
     split; [exact A1|]. split; [exact A2|]. split; [exact A3|].
@@ -551,7 +642,7 @@ Proof.
     assert (HI : hhist_inv m (k_init_internal (hs_core (hs_resetFast hs_init level)) src) []).
     { unfold hhist_inv. rewrite hvis_nil; [apply is_suffix_nil | unfold k_xlen; lia|].
       unfold k_plen. destruct R as ((_ & Pp & _) & _ & _ & _ & Re). unfold k_endIdx in Q2. lia. }
-    pose proof (continue_claims m _ src n cap ret' consumed' out' hw c' [] Pn R Q HI
+    pose proof (continue_claims m _ None src n cap ret' consumed' out' hw c' [] Pn R I Q HI
                   (hs_fastReset_pos m hs_init src n cap level ret' consumed' out' hw c' Pn E0)) as (C1 & C2).
     split; [exact C1|]. intros Hr. destruct (C2 Hr) as (A1 & A2 & A3 & A4).
     split; [exact A1|]. split; [exact A2|]. split; [exact A3|].
@@ -572,16 +663,18 @@ Proof.
   pose proof (hs_loadDict_ok m c a n c' r Hn Ha El) as LD. destruct LD as (L1 & _ & L3 & _ & _ & _ & _ & _ & L9 & L10).
   pose proof (hs_loadDict_hist m c a n c' r Hn Ha El) as HI.
   unfold hs_continue in Ec.
-  destruct (hs_continue_generic_sound m c' src k cap _ ret consumed out hw c'' Hm L1 L9 Hs Hk Hcap Ec) as (ke & Ee & R & _ & Q).
+  destruct (hs_continue_generic_sound m c' src k cap _ ret consumed out hw c'' Hm L1 L9 Hs Hk Hcap Ec) as (ke & dc & Ee & R & Rd & _ & Q).
   assert (HD : match hs_dctx c' with Some d => hhist_inv m d (load_list m a (Z.to_nat n)) | None => True end) by (rewrite L3; exact I).
-  destruct (hs_effective_hist m m c' src k ke _ (conj L1 (conj L9 L10)) Hs ltac:(lia) Ee (or_intror HI) HD) as (Hke & _).
-  apply (continue_claims m ke src k cap ret consumed out hw c'' _ Hk R Q Hke).
+  pose proof (hs_effective_nodict m c' src k ke dc (conj L1 (conj L9 L10)) Hs ltac:(lia) L3 Ee) as ->.
+  destruct (hs_effective_hist m m c' src k ke None _ (conj L1 (conj L9 L10)) Hs ltac:(lia) Ee (or_intror HI) HD
+              ltac:(intros X; exfalso; apply X; reflexivity)) as (Hke & _).
+  apply (continue_claims m ke None src k cap ret consumed out hw c'' _ Hk R Rd Q Hke).
   apply (hs_continue_generic_pos m c' src k cap _ ret consumed out hw c'' Hk Ec).
 Qed.
 
 (* LZ4_attach_HC_dictionary of a stream loaded at an lz4mid level onto a working stream that has not started
-   (LZ4_initStreamHC / LZ4_resetStreamHC(_fast)): when the call stays in the model (first block > 4 KB: the dictionary
-   context is copied) the block decodes with the dictionary bytes *)
+   (LZ4_initStreamHC / LZ4_resetStreamHC(_fast)): whether the dictionary context is copied (first block > 4 KB) or
+   searched in place (LZ4MID_searchExtDict), the block decodes with the dictionary bytes *)
 Theorem hc_attach_roundtrip m c0 d a n dc r src k cap ret consumed out hw c'' :
   hmem_ok m -> hs_ok c0 -> k_dirty (hs_core c0) = false -> k_prefixStart (hs_core c0) = 0 ->
   0 <= n -> 0 <= a -> 0 < src -> 0 <= k < 2147483648 -> 0 <= cap ->
@@ -596,9 +689,9 @@ Proof.
   pose proof (hs_loadDict_hist m d a n dc r Hn Ha El) as HI.
   assert (K : hs_ok (hs_attach c0 (Some dc))) by (apply hs_attach_ok; [exact K0 | exact L2]).
   unfold hs_continue in Ec.
-  destruct (hs_continue_generic_sound m _ src k cap _ ret consumed out hw c'' Hm K Hd0 Hs Hk Hcap Ec) as (ke & Ee & R & Hl & Q).
+  destruct (hs_continue_generic_sound m _ src k cap _ ret consumed out hw c'' Hm K Hd0 Hs Hk Hcap Ec) as (ke & dx & Ee & R & Rd & Hl & Q).
   assert (HD : match hs_dctx (hs_attach c0 (Some dc)) with Some x => hhist_inv m x (load_list m a (Z.to_nat n)) | None => True end) by exact HI.
-  destruct (hs_effective_hist m m _ src k ke _ (conj K (conj Hd0 Hl)) Hs ltac:(lia) Ee (or_introl Hz) HD) as (Hke & _).
-  apply (continue_claims m ke src k cap ret consumed out hw c'' _ Hk R Q Hke).
+  destruct (hs_effective_hist m m _ src k ke dx _ (conj K (conj Hd0 Hl)) Hs ltac:(lia) Ee (or_introl Hz) HD ltac:(intros _; exact Hz)) as (Hke & _).
+  apply (continue_claims m ke dx src k cap ret consumed out hw c'' _ Hk R Rd Q Hke).
   apply (hs_continue_generic_pos m _ src k cap _ ret consumed out hw c'' Hk Ec).
 Qed.
